@@ -1384,6 +1384,27 @@ fn gen_case(rng: &mut Rng, n: u64) -> CaseIn {
         let reads = vec![format!("?{}", rng.range(14, 20))];
         return CaseIn { kind, ssc: 3, phases: vec![Phase { ops, reads }] };
     }
+    if n == 9 || n == 10 {
+        // directed: a slot deleted while it is still in the pushed buffer (before any write), read back through
+        // every point-read path and the whole-range paths
+        let kind = ["bytes", "zc"][(n - 9) as usize].to_string();
+        let stored = rng.range(3, 30) as usize;
+        let extra = rng.range(2, 6) as usize;
+        let victim = stored + rng.below(extra as u64) as usize;
+        let last = stored + extra - 1;
+        let ops: Vec<String> = vec![format!("p:{stored}"), "w".into(), format!("p:{extra}"), format!("d:{victim}"), format!("d:{last}")];
+        let mut reads = vec!["x:0".to_string()];
+        for t in ['d', 'y'] {
+            reads.push(format!("{t}.c1:{victim}"));
+            reads.push(format!("{t}.c1:{last}"));
+            reads.push(format!("{t}.la"));
+        }
+        reads.push(format!("d.ga:{victim}"));
+        reads.push("d.ch:0:18446744073709551615".into());
+        reads.push("d.co".into());
+        reads.push(format!("?{}", rng.range(8, 14)));
+        return CaseIn { kind, ssc: 0, phases: vec![Phase { ops, reads }] };
+    }
     let mut kind = rng.pick(&kinds).to_string();
     if let Some((k, _)) = forced { kind = k.to_string(); }
     let raw = matches!(kind.as_str(), "bytes" | "bytesn" | "zc");
